@@ -131,6 +131,11 @@ def calls(rng, matrix, tier):
                               "hh": "ok:" + text_of("plain", rng), "ls": rng.choice([["a", "", "b"], [""], [], ["", ""], [text_of(cls, rng)]])}, "r", None))
     for n in INTS:
         out.append(("regexPath", {"n": n}, "r", None))      # a path parameter behind a regex segment of the template
+    # a handler with the request context: what it sees through the context is the request as sent
+    for pv in ("seg", text_of("reserved", rng), text_of("unicode", rng)):
+        for hoa in (None, "v", "x y"):
+            for q in (None, "a&b=c"):
+                out.append(("ctxCall", {"p": pv, "hoa": hoa, "q": q}, "r", None))
     out.append(("names", {"type": 1, "fooBar": UUID, "async": 2, "camelCase": None, "self": 3, "snakeArg": [4, 5], "match": True}, "n", None))
     out.append(("safeMix", {"auth": "tok", "safePath": "sp", "unsafePath": "u p/x", "safeQuery": "s&q", "unsafeQuery": "", "safeHeader": "sh",
                             "unsafeHeader": "uh", "dnlQuery": None, "safeInt": 5, "body": {"a": 1}}, "r", None))
@@ -255,6 +260,16 @@ def judge(endpoint, args, ret, m, client, server, obs, out, rep):
                 continue    # leading/trailing whitespace of a header value is trimmed by HTTP (don't-care)
             out.violation("C04:argument-altered:%s:%s:%s" % (endpoint, name, (m or {}).get("cls", "-")),
                           "argument %s: sent %s, handler received %s" % (name, json.dumps(want)[:80], json.dumps(g)[:80]), rep)
+    if endpoint == "ctxCall":
+        ex = obs["exchanges"][0]
+        if got.get("@uri") != ex["sent_uri"]:
+            out.violation("C04:context:uri", "the request context shows %r, the request was sent to %r" % (got.get("@uri"), ex["sent_uri"]), rep)
+        if got.get("@hdr") != args["hoa"] or got.get("@nhdr") != len(ex["headers"]):
+            out.violation("C04:context:headers", "the request context shows X-OptAlias %r among %s header lines, sent %r among %d" % (
+                got.get("@hdr"), got.get("@nhdr"), args["hoa"], len(ex["headers"])), rep)
+        if got.get("@marker") != len(args["p"].encode()) or ex.get("resp_marker") != len(args["p"].encode()):
+            out.violation("C04:context:response-extensions", "response extension written by the handler: seen %r, after the call %r, written %d" % (
+                got.get("@marker"), ex.get("resp_marker"), len(args["p"].encode())), rep)
     r = obs["client"]["ok"]
     if endpoint == "jsonBody":
         okr = bag_equal(r, ret)
